@@ -17,6 +17,7 @@ From LinfaVerif Require Import Common.Num Common.B32 C17.Model.
 (** * SpecFloat at (24, 128) = Flocq's binary32 with round-to-nearest-even *)
 Local Instance Hprec32 : FLX.Prec_gt_0 p32 := eq_refl _.
 Local Instance Hmax32 : Prec_lt_emax p32 e32 := eq_refl _.
+Local Instance Hvexp32 : Valid_exp (SpecFloat.fexp p32 e32) := fexp_correct p32 e32 Hprec32.
 Notation bf32 := (binary_float p32 e32).
 Notation fexp32 := (SpecFloat.fexp p32 e32).
 Notation rne32 := (round radix2 fexp32 ZnearestE).
@@ -135,8 +136,8 @@ Proof.
       - unfold F2R. simpl. lra.
       - simpl. lia.
       - simpl. unfold emin, e32, p32. lia. }
-    rewrite <- (round_generic radix2 fexp32 ZnearestE _ G) at 2.
-    apply round_le; auto with typeclass_instances.
+    pose proof (round_le radix2 fexp32 ZnearestE x (IZR (2 ^ 63)) H1) as L.
+    rewrite (round_generic radix2 fexp32 ZnearestE _ G) in L. exact L.
 Qed.
 
 Lemma abs_bound_B (x : bf32) (n : nat) :
